@@ -81,7 +81,7 @@ theorem verify_detects (p m m' q : Bytes) (hl : m.length = m'.length) (h4 : m.le
   · right
     have hlen : (body' ++ beBytes 4 CkType.crc32.code ++ beBytes 8 (crc32 body)).length < 16 := by
       simp [body, body', beBytes_length] at h ⊢; omega
-    simp only [openBlock]
+    simp only [openBlock, openBlockCfg]
     rw [if_pos (by simpa [BLOCK_META_SIZE] using hlen)]
 
 example : openBlock true (([65, 0, 0, 0] ++ beBytes 4 0) ++ beBytes 4 1 ++ beBytes 8 (crc32 ([1, 0, 0, 0] ++ beBytes 4 0)))
@@ -218,26 +218,109 @@ theorem laundered_block_verifies (bt : Nat) (payload : Bytes) (hbt : bt < BLOCK_
     openBlock true (sealBlock .crc32 bt payload) = .ok (bt, payload) :=
   openBlock_sealBlock .crc32 bt payload hbt
 
-/-! ## the checksum type is read from the bytes it protects nothing of -/
+/-! ## the checksum type is stored in bytes that nothing protects
 
-/-- FULL statement: whatever is done to the 12 checksum bytes of the trailer, an altered payload
-is never accepted. -/
+Since the repair of `trailer:cktype-overwrite` the reader is told the checksum type the storage is
+configured with and refuses a stored type `None` under a configuration that writes checksums
+(`verify_stored_checksum`).  What a 16-byte trailer next to the data can and cannot give: -/
+
+/-- **Every accepted fresh load carries the CRC-32 of its own body** (database configured with Crc32):
+whatever the 16 trailer bytes are, `get_block` returns `Ok` for a freshly loaded block only if the
+stored checksum type is Crc32 and the stored checksum is the CRC-32 of the bytes before it. -/
+theorem accepted_has_own_crc (blk : Bytes) (r : Nat × Bytes) (h : openBlock true blk = .ok r) :
+    natOfBE ((blk.drop (blk.length - 12)).take 4) = CkType.crc32.code
+    ∧ natOfBE ((blk.drop (blk.length - 8)).take 8) = crc32 (blk.take (blk.length - BLOCK_META_CHECKSUM_SIZE)) := by
+  simp only [openBlock, openBlockCfg] at h
+  split at h
+  · cases h
+  · split at h
+    · cases h
+    · split at h
+      · cases h
+      · rename_i t ht
+        cases t with
+        | none => simp [verifyStored] at h
+        | crc32 =>
+          have hc : natOfBE ((blk.drop (blk.length - 12)).take 4) = 1 := by
+            generalize natOfBE ((blk.drop (blk.length - 12)).take 4) = c at ht
+            match c, ht with
+            | 1, _ => rfl
+          refine ⟨hc, ?_⟩
+          by_cases hv : verifyChecksum .crc32 (blk.take (blk.length - BLOCK_META_CHECKSUM_SIZE))
+              (natOfBE ((blk.drop (blk.length - 8)).take 8)) = true
+          · simp only [verifyChecksum, buildChecksum, beq_iff_eq] at hv
+            exact hv.symm
+          · simp [verifyStored, hv] at h
+
+/-- **A stored checksum type `None` is refused**, whatever the rest of the block is. -/
+theorem cktype_none_refused (body ck8 : Bytes) (h8 : ck8.length = 8) :
+    isErr (openBlock true (body ++ beBytes 4 CkType.none.code ++ ck8)) = true := by
+  cases h : openBlock true (body ++ beBytes 4 CkType.none.code ++ ck8) with
+  | error e => rfl
+  | ok r =>
+    have := (accepted_has_own_crc _ r h).1
+    rw [show (body ++ beBytes 4 CkType.none.code ++ ck8).length - 12 = body.length by
+        simp [beBytes_length, h8], List.append_assoc, List.drop_left' rfl,
+      List.take_left' (beBytes_length _ _)] at this
+    exact absurd this (by decide)
+
+/-- a block `body' ++ type field ++ checksum c` that is accepted has `c = crc32 body'` -/
+theorem accepted_sealed (body' tb : Bytes) (c : Nat) (hc : c < 2 ^ 32) (htb : tb.length = 4) (r : Nat × Bytes)
+    (h : openBlock true (body' ++ tb ++ beBytes 8 c) = .ok r) : c = crc32 body' := by
+  generalize hb : body' ++ tb ++ beBytes 8 c = blk at h
+  have hlen : blk.length = body'.length + 12 := by rw [← hb]; simp [beBytes_length, htb]
+  have e_ck : natOfBE ((blk.drop (blk.length - 8)).take 8) = c := by
+    rw [hlen, ← hb, show body'.length + 12 - 8 = (body' ++ tb).length by simp [htb],
+      List.drop_left' rfl, List.take_of_length_le (by simp [beBytes_length])]
+    exact natOfBE_beBytes 8 _ (Nat.lt_of_lt_of_le hc (by decide))
+  have e_body : blk.take (blk.length - BLOCK_META_CHECKSUM_SIZE) = body' := by
+    rw [hlen, ← hb, List.append_assoc]
+    simp only [BLOCK_META_CHECKSUM_SIZE]
+    rw [show body'.length + 12 - 12 = body'.length by omega, List.take_left' rfl]
+  have := (accepted_has_own_crc blk r h).2
+  rw [e_ck, e_body] at this
+  exact this
+
+/-- **Overwriting the checksum-type field does not switch the verification off**: with the stored
+checksum intact, a body altered within a window of ≤ 4 bytes is rejected whatever the four bytes of
+the type field have become (`verify_detects` without its hypothesis on the type field). -/
+theorem verify_detects_any_cktype (p m m' q tb : Bytes) (hl : m.length = m'.length) (h4 : m.length ≤ 4)
+    (hne : m ≠ m') (htb : tb.length = 4) :
+    isErr (openBlock true ((p ++ m' ++ q) ++ tb ++ beBytes 8 (crc32 (p ++ m ++ q)))) = true := by
+  cases h : openBlock true ((p ++ m' ++ q) ++ tb ++ beBytes 8 (crc32 (p ++ m ++ q))) with
+  | error e => rfl
+  | ok r =>
+    exact absurd (accepted_sealed _ tb _ (crc32_lt _) htb r h) (crc_detects_burst_le_32 p m m' q hl h4 hne)
+
+/-- REGRESSION (was `cktype_field_unprotected_witness`): the 12 checksum bytes overwritten with
+type := None, checksum := 0 over an altered payload — refused since the repair (`Err(Decode)`); the
+read that trusts the stored type (the code before the repair) accepts the altered payload. -/
+theorem cktype_overwrite_regression :
+    openBlock true ([65, 0, 0, 0] ++ beBytes 4 0 ++ (beBytes 4 0 ++ beBytes 8 0)) = .error .decode
+    ∧ openBlockTrusting true ([65, 0, 0, 0] ++ beBytes 4 0 ++ (beBytes 4 0 ++ beBytes 8 0)) = .ok (0, [65, 0, 0, 0]) := by
+  decide +kernel
+
+/-- overwriting the checksum type alone -/
+example : openBlock true (([65, 0, 0, 0] ++ beBytes 4 0) ++ beBytes 4 0 ++ beBytes 8 (crc32 ([1, 0, 0, 0] ++ beBytes 4 0)))
+    = .error .decode := by decide +kernel
+
+/-- FULL statement (kept visible; FALSE for every design that keeps an unkeyed checksum next to the
+data, repaired or not): whatever is done to the 12 checksum bytes of the trailer, an altered payload is
+never accepted. -/
 def TrailerProtected : Prop :=
   ∀ (payload payload' : Bytes) (bt : Nat) (trailer : Bytes), trailer.length = 12 → payload' ≠ payload →
     payload'.length = payload.length →
     isErr (openBlock true (payload' ++ beBytes 4 bt ++ trailer)) = true
 
-/-- REFUTED: overwriting the checksum-type field with `None` (and the checksum with the value
-`None` "computes", 0) makes `verify_checksum` accept any payload. -/
-theorem cktype_field_unprotected_witness : ¬ TrailerProtected := by
+/-- The limit of the repair: CRC-32 is not a MAC.  An alteration that also writes the CRC-32 of the
+ALTERED body into the trailer is accepted — by `accepted_has_own_crc` that is the only way, and no
+random corruption model (bit flips, byte overwrites, bursts, zeroed ranges, truncation) produces it
+except with probability 2⁻³². -/
+theorem trailer_not_a_mac : ¬ TrailerProtected := by
   intro h
-  have := h [1, 0, 0, 0] [65, 0, 0, 0] 0 (beBytes 4 0 ++ beBytes 8 0) (by decide) (by decide) rfl
+  have := h [1, 0, 0, 0] [65, 0, 0, 0] 0 (beBytes 4 1 ++ beBytes 8 (crc32 ([65, 0, 0, 0] ++ beBytes 4 0)))
+    (by decide) (by decide) rfl
   exact absurd this (by decide +kernel)
-
-/-- overwriting the checksum type alone is still detected (the stored CRC is compared with 0) —
-unless the stored CRC happens to be 0 -/
-example : openBlock true (([65, 0, 0, 0] ++ beBytes 4 0) ++ beBytes 4 0 ++ beBytes 8 (crc32 ([1, 0, 0, 0] ++ beBytes 4 0)))
-    = .error .checksum := by decide +kernel
 
 /-! ## index files -/
 
@@ -273,16 +356,85 @@ theorem index_open_detects (p m m' q : Bytes) (hl : m.length = m'.length) (h4 : 
       simp [beBytes_length]]
     rw [List.drop_left' rfl, List.take_of_length_le (by simp [beBytes_length])]
     exact natOfBE_beBytes 8 _ (Nat.lt_of_lt_of_le (crc32_lt body) (by decide))
-  simp only [openIndex]
+  simp only [openIndex, openIndexCfg]
   rw [if_neg (by simp only [INDEX_FOOTER_SIZE]; omega)]
   simp only [e_body, e_magic, e_ct, e_ck]
-  simp [CkType.ofCode?, verifyChecksum, buildChecksum, Ne.symm hcrc]
+  simp [CkType.ofCode?, verifyStored, verifyChecksum, buildChecksum, Ne.symm hcrc]
 
-/-- The block COUNT of the footer is not covered by the checksum: an index file with the count
-overwritten opens without error and announces fewer blocks. -/
-theorem index_count_unprotected_witness :
-    openIndex (sealIndex .crc32 2 [10, 20, 30]) = .ok (2, [10, 20, 30])
-    ∧ openIndex (sealIndexWith [10, 20, 30] 1 .crc32 (crc32 [10, 20, 30])) = .ok (1, [10, 20, 30]) := by
+/-- **The block count is cross-checked against the entries** (repair of
+`idx:footer-count-unprotected`; the count itself is still outside the checksum): an index file opens
+only if its entry area is exactly `count` complete length-delimited frames. -/
+theorem index_count_protected (data : Bytes) (count : Nat) (body : Bytes)
+    (h : openIndex data = .ok (count, body)) :
+    body = data.take (data.length - 24) ∧ frameCount body.length body = some count := by
+  simp only [openIndex, openIndexCfg] at h
+  split at h
+  · cases h
+  · split at h
+    · cases h
+    · split at h
+      · cases h
+      · split at h
+        · cases h
+        · split at h
+          · rename_i hf
+            injection h with h
+            injection h with h1 h2
+            subst h2
+            refine ⟨rfl, ?_⟩
+            rw [← h1]
+            simpa using hf
+          · cases h
+
+/-- hence the same entry bytes never open under two different counts: overwriting the count of an
+index file (fewer blocks: rows silently dropped; more: decode past the end; huge: allocation abort)
+is always refused -/
+theorem index_count_unique (d1 d2 : Bytes) (c1 c2 : Nat) (body : Bytes)
+    (h1 : openIndex d1 = .ok (c1, body)) (h2 : openIndex d2 = .ok (c2, body)) : c1 = c2 := by
+  have e1 := (index_count_protected d1 c1 body h1).2
+  have e2 := (index_count_protected d2 c2 body h2).2
+  rw [e1] at e2
+  exact Option.some.inj e2
+
+/-- the same refusal of a stored type `None` as for blocks -/
+theorem index_cktype_none_refused (entries : Bytes) (count cksum : Nat) :
+    ∃ e, openIndex (sealIndexWith entries count .none cksum) = .error e := by
+  cases h : openIndex (sealIndexWith entries count .none cksum) with
+  | error e => exact ⟨e, rfl⟩
+  | ok r =>
+    exfalso
+    generalize hb : sealIndexWith entries count .none cksum = blk at h
+    have hlen : blk.length = entries.length + 24 := by rw [← hb]; simp [sealIndexWith, beBytes_length]
+    have e_ct : natOfBE ((blk.drop (blk.length - 12)).take 4) = 0 := by
+      rw [hlen, ← hb]
+      simp only [sealIndexWith]
+      rw [show entries.length + 24 - 12 = (entries ++ beBytes 4 SECONDARY_INDEX_MAGIC ++ beBytes 8 count).length by
+        simp [beBytes_length]]
+      rw [List.append_assoc _ (beBytes 4 CkType.none.code), List.drop_left' rfl, List.take_left' (beBytes_length _ _)]
+      decide
+    simp only [openIndex, openIndexCfg, e_ct, CkType.ofCode?, verifyStored] at h
+    split at h
+    · cases h
+    · split at h
+      · cases h
+      · simp at h
+
+/-- REGRESSION (was `index_count_unprotected_witness`; entry area = two one-byte frames): the right
+count opens; a smaller or larger count is refused (`Err(Decode)`); the reader before the repair
+opened the file with the overwritten count and announced one block. -/
+theorem index_count_regression :
+    openIndex (sealIndex .crc32 2 [1, 10, 1, 20]) = .ok (2, [1, 10, 1, 20])
+    ∧ openIndex (sealIndexWith [1, 10, 1, 20] 1 .crc32 (crc32 [1, 10, 1, 20])) = .error .decode
+    ∧ openIndex (sealIndexWith [1, 10, 1, 20] 3 .crc32 (crc32 [1, 10, 1, 20])) = .error .decode
+    ∧ openIndex (sealIndexWith [1, 10, 1, 20] (2 ^ 63) .crc32 (crc32 [1, 10, 1, 20])) = .error .decode
+    ∧ openIndexTrusting (sealIndexWith [1, 10, 1, 20] 1 .crc32 (crc32 [1, 10, 1, 20])) = .ok (1, [1, 10, 1, 20]) := by
+  decide +kernel
+
+/-- REGRESSION (`idx-footer:cktype-overwrite`): altered entries under type := None, checksum := 0 —
+refused since the repair, accepted by the reader that trusts the stored type. -/
+theorem index_cktype_overwrite_regression :
+    openIndex (sealIndexWith [1, 99, 1, 20] 2 .none 0) = .error .decode
+    ∧ openIndexTrusting (sealIndexWith [1, 99, 1, 20] 2 .none 0) = .ok (2, [1, 99, 1, 20]) := by
   decide +kernel
 
 /-! ## tie to the constants regenerated from the source -/
